@@ -520,14 +520,39 @@ def quietRet : SS → Bool
   | .dispatchErr _ _ | .taskDone _ _ _ => false
   | _ => true
 
-/-- control-flow fact: an announced task / a remembered `GetNext` error exist only between calls and
-in the restart prologue, and never together with a retryable dispatch / done state -/
+/-- program counters at which `getNextErr` can be set: the quiet ones and — since `dispatchTask` sets it when
+it gives up (D21) — the path of `Retry(DispatchErr)` through `dispatchTask`, which never clears it -/
+def gnePc : Pc → Bool
+  | .r_getById _ | .d_wait _ _ | .d_mark _ _ | .d_get _ => true
+  | p => quietPc p
+
+/-- `getNextErr` is never set together with a `TaskDone` state -/
+def gneRet : SS → Bool
+  | .taskDone _ _ _ => false
+  | _ => true
+
+/-- a `DispatchErr` state between two calls, and its re-read in `Retry`, come with the restart request:
+`dispatchTask` set it when it gave up (D21) and nothing on the way clears it -/
+def deOk : Pc → SS → Bool → Bool
+  | .idle, .dispatchErr _ _, g => g
+  | .r_getById _, _, g => g
+  | _, _, _ => true
+
+/-- control-flow fact: an announced task exists only between calls and in the restart prologue, and never
+together with a retryable dispatch / done state; a remembered restart request (`getNextErr`) exists only there
+and along `Retry(DispatchErr)`, never inside `select`, the timer branch or a `MarkAsDone`; a `DispatchErr`
+awaiting `Retry` / being retried comes with the restart request -/
 def StickyOk (w : World) : Prop :=
-  (w.lastTask.isSome = true ∨ w.getNextErr = true) → quietPc w.pc = true ∧ quietRet w.ret = true
+  (w.lastTask.isSome = true → quietPc w.pc = true ∧ quietRet w.ret = true) ∧
+  (w.getNextErr = true → gnePc w.pc = true ∧ gneRet w.ret = true) ∧
+  deOk w.pc w.ret w.getNextErr = true
 
 def LastDebt (w : World) : Prop := ∃ t, w.lastTask = some t ∧ w.obs.Held t
 
-def Sticky (w : World) : Prop := LastDebt w ∨ w.getNextErr = true
+/-- a debt that the next `Step` pays in its prologue: the announced task, or the restart request — the latter
+counts only with a state that `Retry` does not hand back to `dispatchTask` / `MarkAsDone` (with a `DispatchErr`
+the debt is `DErr`) -/
+def Sticky (w : World) : Prop := LastDebt w ∨ (w.getNextErr = true ∧ quietRet w.ret = true)
 
 def DErr (w : World) : Prop :=
   ∃ t e, w.ret = .dispatchErr t e ∧ World.isDefError e = false ∧ w.obs.Held t
@@ -549,6 +574,13 @@ structure LiveInv (w : World) : Prop where
   fix : w.fix = {}
   sticky : StickyOk w
   hook : Inv w.obs ∨ (w.obs.Dead ∧ Inv w.obs.ghost ∧ Owes w)
+
+/-- between two calls a `DispatchErr` state comes with the restart request (D21) -/
+theorem LiveInv.dispatchErr_restart {w : World} (h : LiveInv w) (hpc : w.pc = .idle) {t : Task} {e : Err}
+    (hr : w.ret = .dispatchErr t e) : w.getNextErr = true := by
+  have := h.sticky.2.2
+  rw [hpc, hr] at this
+  exact this
 
 theorem LiveInv.tasksOk {w : World} (h : LiveInv w) : TasksOk w.obs.repo.tasks w.obs.clock.now := by
   rcases h.hook with h | ⟨_, h, _⟩
@@ -605,11 +637,11 @@ theorem held_lookup {o : Obs} (hok : TasksOk o.repo.tasks o.clock.now) {t : Task
     exact ⟨u, rfl, hs⟩
 
 local macro "sticky_tac" : tactic =>
-  `(tactic| (simp_all [StickyOk, quietPc, quietRet, World.finish, World.afterPrologue]))
+  `(tactic| (simp_all [StickyOk, quietPc, quietRet, gnePc, gneRet, deOk, World.finish, World.finishDE,
+    World.afterPrologue]))
 
 set_option linter.unnecessarySimpa false in
-theorem LiveInv.sched {w : World} (h : LiveInv w) (a : SAct) (hdrv : World.DriverOk w (.sched a)) :
-    LiveInv (w.sched a).1 := by
+theorem LiveInv.sched_free {w : World} (h : LiveInv w) (a : SAct) : LiveInv (w.sched a).1 := by
   have hS := h.sticky
   have hfix := h.fix
   cases hpc : w.pc <;> cases a <;> simp only [World.sched, hpc]
@@ -617,18 +649,18 @@ theorem LiveInv.sched {w : World} (h : LiveInv w) (a : SAct) (hdrv : World.Drive
     | exact h.move rfl rfl (by simpa [StickyOk, hpc] using hS) (fun _ _ ho => Or.inl (by simpa [Owes, hpc, Sticky, LastDebt, DErr] using ho))
     | skip
   case idle.beginStep =>
-    have hnd : ¬ DErr w := by
-      rintro ⟨t, e, h1, h2, _⟩
-      have := hdrv.beginStep h1
-      rw [h2] at this; cases this
     split
     · exact h.move rfl rfl (by sticky_tac) (fun _ _ _ => Or.inl trivial)
     · next hg =>
+      -- a `DispatchErr` comes with the restart request (D21): this branch is not taken after one
+      have hnd : ¬ DErr w := by
+        rintro ⟨t, e, h1, _, _⟩
+        exact hg (h.dispatchErr_restart hpc h1)
       refine h.move rfl rfl (by sticky_tac) (fun _ _ ho => Or.inl ?_)
       have ho' : Sticky w ∨ DErr w := by simpa [Owes, hpc] using ho
       rcases ho' with (hl | hg') | hde
       · exact hl
-      · exact absurd hg' hg
+      · exact absurd hg'.1 hg
       · exact absurd hde hnd
   case s_lastErr0.lastTimerErr =>
     split
@@ -687,10 +719,9 @@ theorem LiveInv.sched {w : World} (h : LiveInv w) (a : SAct) (hdrv : World.Drive
   case idle.beginRetry =>
     have hq : Sticky w → quietRet w.ret = true := by
       intro hs
-      apply (hS ?_).2
       rcases hs with ⟨t, h1, _⟩ | hg
-      · left; simp [h1]
-      · right; exact hg
+      · exact (hS.1 (by simp [h1])).2
+      · exact hg.2
     split
     · exact h.move rfl rfl (by sticky_tac) (fun _ _ _ => Or.inl trivial)
     · next t e hr =>
@@ -711,8 +742,9 @@ theorem LiveInv.sched {w : World} (h : LiveInv w) (a : SAct) (hdrv : World.Drive
     · next hr1 hr2 hr3 =>
       refine h.move rfl rfl (by sticky_tac) (fun _ _ ho => Or.inl ?_)
       have ho' : Sticky w ∨ DErr w := by simpa [Owes, hpc] using ho
-      rcases ho' with hs | ⟨t', e', h1, _, h3⟩
-      · exact Or.inl hs
+      rcases ho' with (hs | hs) | ⟨t', e', h1, _, h3⟩
+      · exact Or.inl (Or.inl hs)
+      · exact Or.inl (Or.inr ⟨hs.1, rfl⟩)
       · exact absurd h1 (hr2 t' e')
   case s_select.selTimer =>
     have hno : ¬ Owes w := by simp [Owes, hpc]
@@ -729,15 +761,15 @@ theorem LiveInv.sched {w : World} (h : LiveInv w) (a : SAct) (hdrv : World.Drive
     · exact h.move rfl rfl (by sticky_tac) (fun _ _ ho => absurd ho hno)
   case s_getNext.getNext =>
     split
-    · exact h.move rfl rfl (by sticky_tac) (fun _ _ _ => Or.inl (Or.inl (Or.inr rfl)))
+    · exact h.move rfl rfl (by sticky_tac) (fun _ _ _ => Or.inl (Or.inl (Or.inr ⟨rfl, rfl⟩)))
     · split
-      · exact h.move rfl rfl (by sticky_tac) (fun _ _ _ => Or.inl (Or.inl (Or.inr rfl)))
+      · exact h.move rfl rfl (by sticky_tac) (fun _ _ _ => Or.inl (Or.inl (Or.inr ⟨rfl, rfl⟩)))
       · next t hn =>
         exact h.move rfl rfl (by sticky_tac) (fun _ hI _ => Or.inl (held_of_head hI hn))
   case s_nextSched.nextScheduled t =>
     simp only [hfix]
     split
-    · exact h.move hfix.symm rfl (by sticky_tac) (fun _ _ _ => Or.inl (Or.inl (Or.inr rfl)))
+    · exact h.move hfix.symm rfl (by sticky_tac) (fun _ _ _ => Or.inl (Or.inl (Or.inr ⟨rfl, rfl⟩)))
     · refine h.move hfix.symm rfl (by sticky_tac) (fun _ _ ho => Or.inl (Or.inl (Or.inl ⟨t, rfl, ?_⟩)))
       exact (by simpa [Owes, hpc] using ho : w.obs.Held t)
   case d_wait.waitWorker t retry acq =>
@@ -802,6 +834,10 @@ theorem LiveInv.sched {w : World} (h : LiveInv w) (a : SAct) (hdrv : World.Drive
           simp [Owes, hfix, h2]
           exact hh ho
 
+/-- the form with the driver's premise, which the repaired code (D21) no longer needs -/
+theorem LiveInv.sched {w : World} (h : LiveInv w) (a : SAct) (_hdrv : World.DriverOk w (.sched a)) :
+    LiveInv (w.sched a).1 := h.sched_free a
+
 theorem Owes.transfer {w : World} {o' : Obs} (hh : ∀ t, w.obs.Held t → o'.Held t) (ho : Owes w) :
     Owes { w with obs := o' } := by
   cases hpc : w.pc with
@@ -865,9 +901,25 @@ theorem LiveInv.step {w : World} (h : LiveInv w) (a : Act) (hu : World.UserOk w 
     · exact h.move rfl rfl h.sticky (fun _ _ ho => Or.inl ho)
     · exact h.move rfl rfl h.sticky (fun _ _ ho => Or.inl ho)
 
+/-- `LiveInv` is inductive over every action WITHOUT the driver's premise: since `dispatchTask` sets the restart
+request when it gives up (D21), a `Step` issued over an un-retried `DispatchErr` restarts the timer. -/
+theorem LiveInv.step_free {w : World} (h : LiveInv w) (a : Act) (hu : World.UserOk w a) :
+    LiveInv (w.step a) := by
+  cases a with
+  | sched a => exact h.sched_free a
+  | user op hf => exact h.step (.user op hf) hu trivial
+  | advance t => exact h.step (.advance t) hu trivial
+  | complete id o => exact h.step (.complete id o) hu trivial
+
 theorem LiveInv.init (t0 : Time) : LiveInv (World.init' t0) :=
-  ⟨rfl, fun h => by simp [World.init', World.init] at h,
+  ⟨rfl, ⟨fun h => by simp [World.init', World.init] at h, fun h => by simp [World.init', World.init] at h, rfl⟩,
     Or.inl (inv_startTimer (o := Obs.init t0) (Or.inl (Inv_init t0)) none)⟩
+
+theorem LiveInv.run_free {w : World} (h : LiveInv w) (acts : List Act) (hs : World.UserScript w acts) :
+    LiveInv (w.run acts) := by
+  induction acts generalizing w with
+  | nil => exact h
+  | cons a rest ih => exact ih (h.step_free a hs.1) hs.2
 
 theorem LiveInv.run {w : World} (h : LiveInv w) (acts : List Act) (hs : World.Script w acts) :
     LiveInv (w.run acts) := by
@@ -1453,7 +1505,7 @@ theorem auto_rank (w : World) :
     all_goals simp [rank, hpc]
     all_goals (repeat' split) <;> omega
   all_goals
-    simp only [autoAct, hpc, World.step, World.sched, World.finish]
+    simp only [autoAct, hpc, World.step, World.sched, World.finishDE, World.finish]
     repeat' split
     all_goals simp [rank, hpc]
 
@@ -1559,6 +1611,7 @@ theorem StartedOk.sched {w : World} (h : StartedOk w) (a : SAct) : StartedOk (w.
   all_goals
     have hs : w.obs.hook.started = true := by simpa [hpc] using h
     try unfold World.afterPrologue
+    try unfold World.finishDE
     try unfold World.finish
     try dsimp only
     repeat' split
